@@ -16,9 +16,9 @@ for d in seeded/*${PAT}*/; do
   if ! git -C $WT apply "/verif/$d/patch.diff" 2>/dev/null; then
     if ! git -C $WT apply --3way "/verif/$d/patch.diff" 2>/dev/null; then echo "$sid PATCH-DOES-NOT-APPLY"; git -C $WT checkout -q -- . ; git -C $WT reset -q --hard; continue; fi
   fi
-  VERIF_REPO=$WT ./check $prop --tier quick -evidence /tmp/ev_rc.json -replays /tmp/rp_rc > /tmp/check_rc.log 2>&1
+  VERIF_REPO=$WT ./check $prop --tier quick -evidence /tmp/ev_rc_$$.json -replays /tmp/rp_rc_$$ > /tmp/check_rc_$$.log 2>&1
   rc=$?
-  keys=$(grep -o "key=[^ ]*" /tmp/check_rc.log | sort -u | head -6 | tr '\n' ' ')
+  keys=$(grep -a -o "key=[^ ]*" /tmp/check_rc_$$.log | sort -u | head -6 | tr '\n' ' ')
   python3 - "$d/meta.json" "$prop" "$rc" "$keys" <<'PY'
 import json,sys
 p,prop,rc,keys=sys.argv[1:5]
@@ -27,6 +27,6 @@ m["our_check"]={"command":"VERIF_REPO=<worktree> ./check %s --tier quick"%prop,"
 json.dump(m,open(p,"w"),indent=1)
 PY
   echo "$sid exit=$rc $keys"
-  rm -rf /tmp/ev_rc.json* /tmp/rp_rc
+  rm -rf /tmp/ev_rc_$$.json* /tmp/rp_rc_$$
 done
 git -C /repo worktree remove --force $WT
